@@ -11,7 +11,7 @@ from . import harness
 from . import peers
 from . import shim
 from . import transports as T
-from .engine import Violation, gen_costs, collect_info
+from .engine import Violation, gen_costs, collect_info, gen_eintr
 from .harness import EOF, TIMEOUT
 from .kernel import PtyMaster, PtySlave, ECHO, ICANON, ISIG, OPOST, IEXTEN, default_termios
 from .sendlog import SeqLog
@@ -88,6 +88,7 @@ def generate(rng):
         scn['short_writes'] = [rng.choice([0, 1, 3, 100]) for _ in range(rng.randint(1, 4))]
     scn['in_cap'] = rng.choice([4096, 4096, 64])
     scn['hup_write'] = rng.choice(['ok', 'ok', 'ok', 'eio'])
+    gen_eintr(rng, scn)
     return scn
 
 
